@@ -96,6 +96,10 @@ func units(tier string) []unit {
 		c := c
 		us = append(us, unit{"C", fmt.Sprintf("chunk %d", c), func() *unitStats { return exploreC(tier, c, tb.CChunks) }})
 	}
+	// Execution order inside a worker (unit i runs on worker i%n, in list order): cheap parts first,
+	// the two BFS parts last, so that a deadline truncates the largest explorations only.
+	rank := map[string]int{"C": 0, "A-annot": 1, "A-grid": 2, "A": 3, "B": 4}
+	sort.SliceStable(us, func(i, j int) bool { return rank[us[i].Part] < rank[us[j].Part] })
 	if only := os.Getenv("VERIF_C20_ONLY"); only != "" { // debugging aid: restrict to some parts (the vacuity guard then fails by design)
 		var f []unit
 		for _, u := range us {
